@@ -2,7 +2,7 @@
 
    [walk_logic] needs [Phi (w n)] for EVERY node n.  Properties that depend on
    the node being walked (its positions lie inside the template's source; its
-   height is below the fuel; its calls go to templates of lower rank) need the
+   tree_height is below the fuel; its calls go to templates of lower rank) need the
    hypothesis only for the nodes one unfolding of the walker actually hands to
    [w].  [subnodes n] lists them (the callee of a {call} is treated apart:
    hypothesis [Hcall] speaks about [call_enter] directly, because the callee
